@@ -93,8 +93,7 @@ func H_C20_ShipOp() {
 	op := zzvrt.Choice("op", c20Count)
 	zzvrt.StartAccessLog()
 	e.c20Op(op)
-	zzvrt.RunSpawned("CloseConnection$1")
-	zzvrt.RunSpawned("handleState$1")
+	zzvrt.RunSpawnedExcept("setHandshakeTimer") // delayed-close closures; timer goroutines stay parked
 	role := 0
 	if e.c.role == ShipRoleClient {
 		role = 1
